@@ -43,6 +43,9 @@ F = [
  ("C18","C18-separator-overflow-on-leaf-redistribution","fixed","2d51b9f","keys longer than the inline limit (~1 KB): when leaves redistribute, the parent separator was replaced but its overflow chain kept - the new key was reconstructed from the wrong chain ('Reconstructed key size .. doesn't match expected ..' on later loads and after reopen) or the chain was leaked (page neither reachable nor free)"),
  ("C19","C19-refused-open-truncates-lock","fixed","59b92d9","a refused second open truncated the live owner's LOCK file (opened with truncate before the lock was tried): the directory was not left untouched"),
  ("C16","C16-filter-block-unchecked","fixed","27fb7a5","an altered byte inside a table's filter block was not detected (the block's checksum was never verified): point lookups of stored keys returned nothing, or the filter reader panicked on an out-of-range slice index"),
+ ("C15","C15-oversize-transaction-logged-then-rejected","fixed","3410593","a transaction larger than a whole memtable was written to the commit log, its apply failed, commit() returned an error - and after close + reopen the failed transaction was there"),
+ ("C15","C15-table-footer-short-write","fixed","5aacede","the table footer was written with write() instead of write_all(): a short write (legal) left a cut footer and a table that fails its checks"),
+ ("C15","C15-failed-commit-record-stays-in-log","open","","a commit that fails at the commit log (append or sync error; also an apply failure for a batch just under the memtable size) returns an error but its record stays in the log: after a crash and restart it is replayed - the failed transaction is visible and the recovered state is not a commit prefix. Not repaired: taking the record back needs the log writer to roll back its buffered, block-framed position (or a tombstone record), which is more than a small patch"),
  ("C11","C11-vlog-rotation-inside-flush-not-synced","fixed","f424741","a value-log file rotated away inside a flush was never fsynced; after power loss the installed table pointed at missing bytes"),
 ]
 out = {"_comment": "Committed; never written at run time. status=open: the directed scenario with the same id (harness/src/scenarios.rs or harness/src/props/crash.rs) still fails on the tree; the check prints KNOWN-FINDING for it and the generators mask exactly that pattern. status=fixed: repaired by the named fix: commit in /repo; suppresses nothing - the scenario stays in the check as a regression monitor and reports VIOLATION if the behaviour returns.",
